@@ -285,6 +285,18 @@ def gen_probes():
         out.append((f"scope_send_typed_iter|{en}", mk + "    let d = t.iter();\n    std::thread::scope(|s| { s.spawn(move || { drop(d); }); });", (True if not ey else None)))
         out.append((f"scope_send_typed_slice|{en}", mk + "    let d = t.as_slice();\n    std::thread::scope(|s| { s.spawn(move || { let _ = d.len(); }); });", (True if not ey else None)))
         out.append((f"scope_send_anyvecmut|{en}", mk + "    std::thread::scope(|s| { s.spawn(move || { let _ = t.len(); }); });", (True if not es else None)))
+    # 6. the same handles over backends whose builder or Mem is thread-bound (the typed range iterators read the Mem and rewrite
+    #    the vector on drop: they must not cross threads when an exclusive reference to the vector could not)
+    for bn, (be, bs, by, ms, my) in BACKENDS.items():
+        back_send = bs and ms
+        mk = f"    let mut v: AnyVec<dyn Send + Sync, {be}> = AnyVec::new_in::<u64>(Default::default());\n    let mut t = v.downcast_mut::<u64>().unwrap();\n"
+        out.append((f"scope_send_typed_drain_backend|{bn}", mk + "    let d = t.drain(..);\n    std::thread::scope(|s| { s.spawn(move || { drop(d); }); });", (True if not back_send else None)))
+        out.append((f"scope_send_typed_splice_backend|{bn}", mk + "    let d = t.splice(.., Vec::<u64>::new());\n    std::thread::scope(|s| { s.spawn(move || { drop(d); }); });", (True if not back_send else None)))
+        out.append((f"scope_send_anyvecmut_backend|{bn}", mk + "    std::thread::scope(|s| { s.spawn(move || { let _ = t.len(); }); });", (True if not back_send else None)))
+        mk2 = f"    let mut v: AnyVec<dyn Send + Sync, {be}> = AnyVec::new_in::<u64>(Default::default());\n"
+        out.append((f"scope_send_drain_backend|{bn}", mk2 + "    let d = v.drain(..);\n    std::thread::scope(|s| { s.spawn(move || { drop(d); }); });", (True if not back_send else None)))
+        out.append((f"scope_send_splice_backend|{bn}", mk2 + "    let d = v.splice(.., Vec::<W<u64>>::new());\n    std::thread::scope(|s| { s.spawn(move || { drop(d); }); });", (True if not back_send else None)))
+        out.append((f"scope_share_typed_ref_backend|{bn}", mk2 + "    let t = v.downcast_ref::<u64>().unwrap();\n    std::thread::scope(|s| { s.spawn(move || { let _ = t.len(); }); });", (True if not (by and my) else None)))
     return out
 
 
